@@ -61,21 +61,26 @@ func c09Precedence(dec config.DecoderType) {
 	conf := config.Config{Decoder: dec, Passes: 1, Headers: []string{"[A: conf]", "[B: conf]", "[Host: conf.host]"}}
 	var file string
 	fileHasA := vNondetBool("fileHasA")
+	// the in-file value may be empty ("[A:]" blanks the header)
+	fv := vNondetString("fv", int(vConcretize(vNondetInt("fvlen", 0, 1))))
+	for i := 0; i < len(fv); i++ {
+		vAssume(fv[i] >= 'a' && fv[i] <= 'z')
+	}
 	switch dec {
 	case config.DecoderURI:
 		if fileHasA {
-			file = "[A: file]\n"
+			file = "[A:" + fv + "]\n"
 		}
 		file += "/x t\n"
 	case config.DecoderURIPost:
 		if fileHasA {
-			file = "[A: file]\n"
+			file = "[A:" + fv + "]\n"
 		}
 		file += "2 /x t\nhi\n"
 	default: // raw
 		req := "GET /x HTTP/1.1\r\nHost: file.host\r\n"
 		if fileHasA {
-			req += "A: file\r\n"
+			req += "A: " + fv + "\r\n"
 		}
 		req += "\r\n"
 		file = itoa09(len(req)) + " t\n" + req
@@ -93,7 +98,8 @@ func c09Precedence(dec config.DecoderType) {
 		return
 	}
 	if fileHasA {
-		vCheck("H2.file.header.has.priority", req.Header.Get("A") == "file")
+		vals, present := req.Header["A"]
+		vCheck("H2.file.header.has.priority", present && len(vals) == 1 && vals[0] == fv)
 	} else {
 		vCheck("H2.config.header.added", req.Header.Get("A") == "conf")
 	}
